@@ -125,6 +125,7 @@ type vf19Case struct {
 	terms  []vf19Terminal
 
 	callerGID int
+	started   bool
 	returned  bool
 	retErr    error
 	panicVal  any
@@ -255,14 +256,14 @@ func (x *vf19Conn) Write(p []byte) (int, error) {
 	x.nwrite++
 	c.bump()
 	if x.gated {
-		for x.credits == 0 && !x.closed {
+		for x.gated && x.credits == 0 && !x.closed {
 			x.wwaiting++
 			c.change++
 			c.cond.Wait()
 			x.wwaiting--
 			c.change++
 		}
-		if !x.closed {
+		if x.gated && !x.closed {
 			x.credits--
 		}
 	}
@@ -357,6 +358,7 @@ func (c *vf19Case) start() {
 	go func() {
 		c.mu.Lock()
 		c.callerGID = vf19GID()
+		c.started = true
 		c.mu.Unlock()
 		close(ready)
 		var err error
@@ -383,7 +385,7 @@ func (c *vf19Case) parkedLocked() int {
 		if x.rwaiting > 0 && !x.closed && !x.ended && len(x.cur) == 0 && len(x.avail) == 0 {
 			n += x.rwaiting
 		}
-		if x.wwaiting > 0 && !x.closed && x.credits == 0 {
+		if x.wwaiting > 0 && !x.closed && x.gated && x.credits == 0 {
 			n += x.wwaiting
 		}
 	}
@@ -393,7 +395,7 @@ func (c *vf19Case) parkedLocked() int {
 // waitQuiescent returns when nothing can happen any more without a new action
 // of the harness: copyLoop has returned, or every goroutine it created is
 // parked in a scripted Read/Write (own tracking) or has exited (goroutine
-// dump: "created by main.copyLoop in goroutine <caller>").  stuck != "" means
+// dump: "created by <pkg>.copyLoop in goroutine <caller>").  stuck != "" means
 // that a copier (or copyLoop itself) is blocked somewhere else for good.
 func (c *vf19Case) waitQuiescent() (stuck string) {
 	t0 := time.Now()
@@ -402,39 +404,38 @@ func (c *vf19Case) waitQuiescent() (stuck string) {
 	for {
 		c.mu.Lock()
 		ret, p1, ch1, gid := c.returned, c.parkedLocked(), c.change, c.callerGID
+		allClosed := c.conns[0].closed && c.conns[1].closed
 		c.mu.Unlock()
-		if ret {
-			return ""
+		if ret && allClosed {
+			return "" // nothing left to observe: every further call on a closed conn fails
 		}
 		if p1 >= 2 {
 			return ""
 		}
-		marker := fmt.Sprintf("created by main.copyLoop in goroutine %d\n", gid)
+		// (in a test binary package main is named by its import path, hence suffix matches)
+		marker := fmt.Sprintf(".copyLoop in goroutine %d\n", gid)
 		live, liveBlockedElsewhere := 0, 0
 		callerBlocked := false
 		var elsewhere string
 		for _, g := range vf19Dump() {
 			if g.id == gid {
-				callerBlocked = vf19Blocked(g.state) && strings.Contains(g.text, "main.copyLoop")
+				callerBlocked = vf19Blocked(g.state) && strings.Contains(g.text, ".copyLoop(")
 				continue
 			}
 			if !strings.Contains(g.text+"\n", marker) {
 				continue
 			}
 			live++
-			if vf19Blocked(g.state) && !strings.Contains(g.text, "main.(*vf19Conn).") {
+			if vf19Blocked(g.state) && !strings.Contains(g.text, ".(*vf19Conn).") {
 				liveBlockedElsewhere++
 				elsewhere = g.text
 			}
 		}
 		c.mu.Lock()
-		ret, p2, ch2 := c.returned, c.parkedLocked(), c.change
+		ret2, p2, ch2 := c.returned, c.parkedLocked(), c.change
 		c.mu.Unlock()
-		if ret {
-			return ""
-		}
-		if ch1 == ch2 && p1 == p2 {
-			if live == p1 && (live > 0 || callerBlocked) {
+		if ch1 == ch2 && p1 == p2 && ret == ret2 {
+			if live == p1 && (live > 0 || callerBlocked || ret) {
 				// every live copier is parked in a scripted call; with no copier left,
 				// copyLoop itself must be blocked (otherwise it is about to return).
 				return ""
@@ -473,7 +474,7 @@ func (c *vf19Case) shutdown() {
 	}
 	c.bump()
 	deadline := time.Now().Add(2 * time.Second)
-	for !c.returned && time.Now().Before(deadline) {
+	for c.started && !c.returned && time.Now().Before(deadline) {
 		c.mu.Unlock()
 		time.Sleep(50 * time.Microsecond)
 		c.mu.Lock()
